@@ -212,4 +212,53 @@ theorem knownItems_field (fields : List (String × Ty)) (kvs : List (Key × Val)
       subst hkv
       exact lookup_some_mem _ _ _ hl
 
+theorem knownPrefix_size (fields : List (String × Ty)) (kvs : List (Key × Val)) :
+    vsizeK (knownPrefix fields kvs) ≤ vsizeK kvs := by
+  unfold knownPrefix
+  induction kvs with
+  | nil => simp [vsizeK]
+  | cons kv rest ih =>
+    rcases kv with ⟨k, v⟩
+    simp only [List.takeWhile_cons]
+    split
+    · simp only [vsizeK]; omega
+    · simp [vsizeK]
+
+theorem toDict_size (m : Mode) (v : Val) (kvs : List (Key × Val)) (h : toDict m v = some kvs) :
+    vsizeK kvs ≤ vsize v := by
+  cases v with
+  | tok n => simp [toDict] at h
+  | none => simp [toDict] at h
+  | dict l => simp [toDict] at h; subst h; simp [vsize]
+  | list l =>
+    cases l with
+    | nil => simp only [toDict] at h; split at h <;> simp_all [vsizeK]
+    | cons w ws =>
+      simp only [toDict] at h
+      split at h
+      · cases h
+      · split at h
+        · cases h
+        · cases w with
+          | dict k0 => simp at h; subst h; simp [vsize, vsizeL]; omega
+          | list l0 =>
+            cases l0 with
+            | nil => simp at h; subst h; simp [vsizeK]
+            | cons a b => simp at h
+          | tok n => simp at h
+          | none => simp at h
+
+theorem unwrapData_size (m : Mode) (v v1 : Val) (h : unwrapData m v = some v1) : vsize v1 ≤ vsize v := by
+  cases v with
+  | tok n => simp [unwrapData] at h; subst h; exact Nat.le_refl _
+  | none => simp [unwrapData] at h; subst h; exact Nat.le_refl _
+  | dict l => simp [unwrapData] at h; subst h; exact Nat.le_refl _
+  | list l =>
+    cases l with
+    | nil => simp [unwrapData] at h; subst h; exact Nat.le_refl _
+    | cons w ws =>
+      rcases unwrapData_cases m w ws v1 h with rfl | rfl
+      · simp [vsize, vsizeL]; omega
+      · exact Nat.le_refl _
+
 end Utv.C18
